@@ -32,7 +32,7 @@ def jobs(tier, seed):
     maxa = 2 if tier == "quick" else 3
     maxt = 2 if tier == "quick" else 3
     out = []
-    n = 60 if tier == "quick" else 700
+    n = 90 if tier == "quick" else 450
     for i in range(n):
         names = ["x", "y", "z"][: rng.choice([1, 2, 3])]
         out.append({"kind": "contains", "alts": rand_alts(rng, names, rng.randint(1, maxa + 1), maxt, alphabet), "vars": names, "missing": rng.random() < 0.1})
